@@ -235,7 +235,12 @@ def compare(case, io, mo):
         if iq['answers'] != ir['answers'] or (iq['end'] == 'done' and iq['count'] != ir['count']):
             return 'query %s: implementation answers differ from the compiled-code model (impl %d answers, model %d)' % (qtxt, iq['count'], ir['count'])
         if ir['answers'] != sld['answers'] or ir['count'] != sld['count']:
-            return 'query %s: compiled-code model and SLD reference differ (%d vs %d answers)' % (qtxt, ir['count'], sld['count'])
+            # Sld.solve is an auxiliary, independently written reference (the proved chain is Machine = solveA ~ solveR).
+            # It binds a goal's unbound variable to the clause's fresh variable where the compiled code merely names the
+            # argument, so under findall - whose model renames variables created inside the goal apart per answer - the
+            # two may differ in the IDENTITY of unbound variables inside collected instances; nothing else may differ.
+            if not ('findall' in source_of(case) and ir['count'] == sld['count'] and anon_vars(ir['answers']) == anon_vars(sld['answers'])):
+                return 'query %s: compiled-code model and SLD reference differ (%d vs %d answers)' % (qtxt, ir['count'], sld['count'])
         if sldr is not None and not sldr.get('err') and (ir['answers'] != sldr['answers'] or ir['count'] != sldr['count']):
             return 'query %s: compiled-code model and renamed-apart SLD reference (SldR.solveR) differ (%d vs %d answers) - this contradicts a proved theorem: harness bug' % (qtxt, ir['count'], sldr['count'])
     return None
